@@ -434,6 +434,9 @@ def main_check(P, argv):
           "assumptions": list(getattr(P, "ASSUMPTIONS", []))}
     os.makedirs(os.path.join(ROOT, "evidence"), exist_ok=True)
     os.makedirs(os.path.join(ROOT, "replays"), exist_ok=True)
+    if not a.replay:
+        for f in glob.glob(os.path.join(ROOT, "replays", prop + "_*.json")):
+            os.unlink(f)
     viol = []       # (replay path, text, no_input_found)
     known_hits = []
 
